@@ -198,6 +198,7 @@ func scC08Serial(r *Run) {
 			armed += " " + s
 		}
 	}
+	r.Arm("rotate.afterBroadcast") // see sc_c06.go: keeps multi-rotation writes repeatable
 	nClients := T.Range(1, 6)
 	r.Tracef("config %s calls=%d clients=%d armed=[%s]", cfg, len(script), nClients, armed)
 	c := &c08World{r: r, w: w, cfg: cfg, objects: map[string][]byte{}, latest: map[string]*mediaPL{}, lastMSN: map[string]int{}}
